@@ -123,6 +123,11 @@ func init() {
 		default:
 			r.OK("C16/REFUSAL", "RingBuffer.Push return false", p.Pos(push.Pos()), fmt.Sprintf("refusal only on the occupied-slot edge, tested under the mutex (%d paths)", pp.nFalse))
 		}
+		if pp.splitSection != "" {
+			r.Fail("C16/REFUSAL", "RingBuffer.Push tests and stores in one critical section", pp.splitSection, "the slot is stored without the mutex, or in another critical section than the one that found it free: two producers can both find the last slot free and the second overwrites an unread item")
+		} else if pp.nStore > 0 {
+			r.OK("C16/REFUSAL", "RingBuffer.Push tests and stores in one critical section", p.Pos(push.Pos()), "on every path the store follows the free-slot test without releasing the mutex in between")
+		}
 		switch {
 		case pp.unknownRet != "":
 		case pp.nTrue == 0:
